@@ -50,6 +50,9 @@ CanceledStays(c, p) == \A t \in RealCore(c) : Outcome(p, t) # "Canceled"
 \* C03 over a restart: no task is pending behind a dependency that ended badly AFTER the task had been submitted (the abort of the
 \* dependents is journaled before the failure itself, so that no cut separates them; a task submitted after its dependency
 \* had already ended badly is the known finding of the live system and not judged here)
+\* ... and a dependent that WAS aborted (its TasksAborted record is in the journal, whether or not it had ever been started) is
+\* not handed to the scheduler again by the restart
+AbortedStays(c, p) == \A t \in RealCore(c) : Outcome(p, t) # "Aborted"
 SubmitIdxOfTask(p, t) ==
   LET S == {i \in SubmitIdx(p, JobOfT(t)) : \E x \in SSet(p[i].tasks) : Tid(JobOfT(t), x.id) = t} IN IF S = {} THEN 0 ELSE Min(S)
 NoPendingBehindBadDep(c, p) ==
@@ -78,6 +81,7 @@ CutViol(c, J) ==
     (IF DepsIntact(c, p) THEN {} ELSE {"C10_DepsIntact", "C03_DepsSurviveRestart"}) \cup
     (IF NoPendingBehindBadDep(c, p) THEN {} ELSE {"C03_NoPendingBehindBadDep"}) \cup
     (IF CanceledStays(c, p) THEN {} ELSE {"C08_CanceledStaysAfterRestart"}) \cup
+    (IF AbortedStays(c, p) THEN {} ELSE {"C03_AbortedStaysAfterRestart"}) \cup
     (IF InstAfterRestart(c, p) THEN {} ELSE {"C06_InstAfterRestart"}) \cup
     (IF CrashSurvives(c, p) THEN {} ELSE {"C07_CrashSurvivesRestart"}) \cup
     (IF QueuesRestored(c, p) THEN {} ELSE {"C12_QueuesRestored"}) \cup
